@@ -1,5 +1,6 @@
 import Driver.Common
 import UralModel.Model.Facebook
+import UralModel.Model.FacebookScope
 /-! Driver handler for the model of `ural/facebook.py` (C19, part `facebook`) and the CPython
 prelude functions it rests on (`parse_qs`, `.hostname`, `re.sub` / `re.search` on the
 regenerated patterns).  Executable glue, no theorems. -/
@@ -82,6 +83,12 @@ def handle (f : String) (j : Json) : Option Json :=
          | .ok (some u) => jresult (parse_facebook_url u false)
          | .ok none => .str "no-url"
          | .error e => jerr (errName e))
+      | .ok none => .null
+      | .error e => jerr (errName e))
+  | "fb_hyp" =>
+    -- the decidable hypothesis of the round-trip theorem on the record the url parses to
+    some (match parse_facebook_url (s j "url") (fieldBool j "rel") with
+      | .ok (some r) => jbool (reparsable r)
       | .ok none => .null
       | .error e => jerr (errName e))
   | "fb_re" =>
